@@ -85,6 +85,7 @@ func genC07(t *rapid.T) HistCase {
 		Shards:         rapid.SampledFrom([]int{0, 0, 3}).Draw(t, "shards"),
 		DefaultBackend: rapid.SampledFrom([]string{"", "", "a/s1", "a/s9"}).Draw(t, "defback"),
 	}
+	avoidParams = params
 	g := newG(t, p)
 	g.genWorld()
 	g.genRichExtras()
